@@ -267,4 +267,15 @@ def ctaOutcome (s : CS) : List Nat × Nat × Nat := (s.mined, s.mineErr, s.head)
 def ctaOutcomeUnlocked (m : List Bool) : List Nat × Nat × Nat :=
   ctaOutcome (runMerge2 (ctaMineSteps 0) [ctaInsert] m {})
 
+/-! ### (6) `needConfirm`'s use of lastSig: the clamp to the stable block
+
+  `needConfirm` (/repo/chain/consensus/confirmer.go) reads `lastSig` (under `lastSigLock` since 204ebea), releases the
+  lock, then reads the stable block and CLAMPS: `if lastConfirmHeight <= stable.Height() { use the stable block }`.
+  The batch goroutine may run `SetLastSig(S)` in between (check-then-act); it only signs blocks that are already
+  stable (`BatchConfirmStable(oldStable+1 .. StableBlock().Height())`) and `SetLastSig` only moves lastSig upwards. -/
+
+/-- the (height, hash) `needConfirm` compares the new block with -/
+def clampLast (lastH lastX stableH stableX : Nat) : Nat × Nat :=
+  if lastH ≤ stableH then (stableH, stableX) else (lastH, lastX)
+
 end LemoModel.Signer
